@@ -97,13 +97,15 @@ def _allowed(ctx: Ctx, cls: str, bases: List[str]) -> bool:
     return any(ctx.repo.is_subclass(cls, b) for b in bases)
 
 
-def r6_1(ctx: Ctx) -> RuleResult:
-    rr = RuleResult("R6.1", "escape sets of the documented entry points", floor=40)
+def r6_1(ctx: Ctx, rule: str = "R6.1", only: Optional[str] = None, floor: int = 40) -> RuleResult:
+    rr = RuleResult(rule, "escape sets of the documented entry points", floor=floor)
     esc = ctx.escapes
     cg = ctx.callgraph
     po = ctx.partial
     reach_all: Dict[str, List[str]] = {}
     for label, bases, names in GROUPS:
+        if only is not None and label != only:
+            continue
         entries: List[FuncInfo] = []
         for n in names:
             fn = ctx.repo.get_func(n)
